@@ -28,7 +28,7 @@ theorem strip_replicate_append (k : Nat) (t : Str) : strip (List.replicate k ' '
 
 theorem pyInt_replicate_append (k : Nat) (t : Str) : pyInt (List.replicate k ' ' ++ t) = pyInt t := by
   unfold pyInt
-  rw [strip_replicate_append]
+  rw [numText_replicate_append]
 
 theorem intRepr_ne_nil (i : Int) : intRepr i ≠ [] := by
   cases i with
